@@ -12,6 +12,10 @@ def isAlert : Kind → Bool | .alert _ => true | _ => false
 def isInflux : Kind → Bool | .influx _ => true | _ => false
 def isUdf : Kind → Bool | .udf => true | _ => false
 def isLoop : Kind → Bool | .loop => true | _ => false
+/-- kinds whose node goroutine closes an output buffer and waits for the helper that empties it, on its way out -/
+def bufK (k : Kind) : Bool := isAlert k || isInflux k
+/-- influx nodes whose write buffer is stopped by the STOPPING goroutine: none in the repaired code -/
+def oldInflux (_ : Kind) : Bool := false
 
 /-- Node-local protocol facts. -/
 structure DNode (nd : Nd) : Prop where
@@ -21,9 +25,9 @@ structure DNode (nd : Nd) : Prop where
   dn : nd.done = true → nd.failed = false → nd.inClosed = true ∨ (isUdf nd.kind = true ∧ nd.stopping = true)
   fh : nd.failed = true → nd.hand = 0
   al : isAlert nd.kind = true → (nd.hand = 1 ∨ nd.failed = true ∨ nd.stopping = true) → nd.inited = true
-  ah : isAlert nd.kind = true → nd.helperDone = true → nd.stopping = true
-  ad : isAlert nd.kind = true → nd.done = true → nd.helperDone = true
-  as : isAlert nd.kind = true → nd.stopping = true → nd.failed = false → nd.hand = 0 ∧ nd.inq = 0 ∧ nd.inClosed = true
+  ah : bufK nd.kind = true → nd.helperDone = true → nd.stopping = true
+  ad : bufK nd.kind = true → nd.done = true → nd.helperDone = true
+  as : bufK nd.kind = true → nd.stopping = true → nd.failed = false → nd.hand = 0 ∧ nd.inq = 0 ∧ nd.inClosed = true
   nh : nd.kind.hasHelper = false → nd.helperDone = true
   ih : isInflux nd.kind = true → nd.helperDone = true → nd.stopping = true
   nl : isLoop nd.kind = false
@@ -36,9 +40,9 @@ def DPair (nd c : Nd) : Prop := (nd.done = true → c.inClosed = true ∨ c.inAb
 
 set_option maxHeartbeats 4000000 in
 theorem nodeStep_DNode {env a nd child r} (h : nodeStep env a nd child = some r) (hd : DNode nd)
-    (hleak : env.alertLeak = false) : DNode r.nd := by
+    (hleak : env.alertLeak = false) (hea : env.influxEarlyAbort = false) : DNode r.nd := by
   obtain ⟨h1, ab, fa, dn, fh, al, ah, ad, as, nh, ih, nl, nu, fd, bd⟩ := hd
-  have hstop : isAlert nd.kind = true → nd.failed = false → (0 < nd.inq ∨ nd.hand = 1) → nd.stopping = false := by
+  have hstop : bufK nd.kind = true → nd.failed = false → (0 < nd.inq ∨ nd.hand = 1) → nd.stopping = false := by
     intro a b c
     cases hs : nd.stopping with
     | false => rfl
@@ -46,8 +50,8 @@ theorem nodeStep_DNode {env a nd child r} (h : nodeStep env a nd child = some r)
   nstep h
   all_goals (first
     | (exfalso; simp_all [isLoop, isUdf]; done)
-    | (constructor <;> simp_all [isAlert, isInflux, isUdf, isLoop, isBarrier, Kind.hasHelper, exitOk, exitFailedOk] <;> (try omega) <;>
+    | (constructor <;> simp_all [bufK, isAlert, isInflux, isUdf, isLoop, isBarrier, Kind.hasHelper, exitOk, exitFailedOk] <;> (try omega) <;>
         (try (cases hs : nd.stopping <;> simp_all <;> done)) <;> (try grind) <;>
-        (cases hk : nd.kind <;> simp_all [isAlert, isInflux, isUdf, isLoop, isBarrier, Kind.hasHelper] <;> (first | omega | grind))))
+        (cases hk : nd.kind <;> simp_all [bufK, isAlert, isInflux, isUdf, isLoop, isBarrier, Kind.hasHelper] <;> (first | omega | grind))))
 
 end Kap.C07
